@@ -111,6 +111,13 @@ macro_rules! check_int {
                     Ok(y) if y == x => {}
                     other => $ctx.fail(&format!("int-roundtrip:{}", stringify!($t)), format!("{} -> {:?} -> {:?}", x, s, other.map_err(|e| e.to_string()))),
                 }
+                // the same through one deserializer that has just decoded escaped strings (digits
+                // among them) and that reads another number afterwards
+                let pair = ("\u{31}\"2\n".to_string(), x, "9\t".to_string(), x);
+                match sonic_rs::to_string(&pair).and_then(|t| sonic_rs::from_str::<(String, $t, String, $t)>(&t.replace("\"1", "\"\\u0031").replace("\"9", "\"\\u0039"))) {
+                    Ok(y) if y == pair => {}
+                    other => $ctx.fail(&format!("int-roundtrip-after-strings:{}", stringify!($t)), format!("{} in (String, {}, String, {}) -> {:?}", x, stringify!($t), stringify!($t), other.map_err(|e| e.to_string()))),
+                }
             }
             Err(e) => $ctx.fail(&format!("int-ser-error:{}", stringify!($t)), e.to_string()),
         }
